@@ -33,6 +33,10 @@ type guardSpec struct {
 }
 
 func (p *Program) guardEval(fn *ssa.Function, spec guardSpec, cell map[string]gval) []guardOutcome {
+	return p.guardEvalDepth(fn, spec, cell, 2)
+}
+
+func (p *Program) guardEvalDepth(fn *ssa.Function, spec guardSpec, cell map[string]gval, depthLeft int) []guardOutcome {
 	var out []guardOutcome
 	type state struct {
 		blk, prev *ssa.BasicBlock
@@ -145,6 +149,27 @@ func (p *Program) guardEval(fn *ssa.Function, spec guardSpec, cell map[string]gv
 			case *ssa.Jump:
 				walk(state{blk: s.blk.Succs[0], prev: s.blk, env: s.env, events: s.events, depth: s.depth + 1})
 				return
+			}
+			// boolean helper of the module (e.g. an extracted guard): evaluate it over the same cell, one level deep
+			if c, ok := in.(*ssa.Call); ok && depthLeft > 0 {
+				if cal := c.Call.StaticCallee(); cal != nil && p.inModule(cal) && len(cal.Blocks) > 0 && cal.Signature.Results().Len() == 1 && isBool(cal.Signature.Results().At(0).Type()) {
+					sub := guardSpec{Atoms: spec.Atoms, Event: func(ssa.Instruction) string { return "" }, Classify: func(ssa.Instruction) string { return "" }}
+					outs := p.guardEvalDepth(cal, sub, cell, depthLeft-1)
+					agree, known := "", len(outs) > 0
+					for _, o := range outs {
+						if o.Class != "return:true" && o.Class != "return:false" {
+							known = false
+						}
+						if agree == "" {
+							agree = o.Class
+						} else if agree != o.Class {
+							known = false
+						}
+					}
+					if known {
+						s.env[c] = gval{known: true, isB: true, b: agree == "return:true"}
+					}
+				}
 			}
 			if ev := spec.Event(in); ev != "" {
 				s.events = append(s.events, ev)
